@@ -11,7 +11,7 @@ from vf.util import Violation, jsonable, rng_for
 ID = "C12"
 LEVEL = "exploration"
 RULE = (
-    "the Hamiltonian is a user BlockSeries (2-3 blocks, 1-3 parameters) with non-zero terms at a random set of multi-orders; its eval "
+    "the Hamiltonian is a user BlockSeries (2-3 blocks, 1-3 parameters; given pre-split into blocks, or as a scalar series of full matrices with subspace_indices / identity eigenvectors / no subspace argument) with non-zero terms at a random set of multi-orders; its eval "
     "callback logs every call (the index is the unique id) and raises a marker exception for every order outside the causal cone "
     "{m : m <= n componentwise} of the request in progress, so that an out-of-cone evaluation is observable even if its value "
     "would be discarded. Checked offline on the log: (a) defining the computation evaluates only zeroth-order terms, (b) every "
@@ -59,7 +59,31 @@ def _make(rng, nb, sizes, n_par, term_orders, values, E, hermitian, log, state):
             return zero
         return values(i, j, n)
 
-    return BlockSeries(eval=ev, shape=(nb, nb), n_infinite=n_par, name="H")
+    if state.get("form", "blocks") == "blocks":
+        return BlockSeries(eval=ev, shape=(nb, nb), n_infinite=n_par, name="H")
+    # scalar series of full matrices (to be split by subspace_indices / eigenvectors / not at all)
+    off = np.concatenate([[0], np.cumsum(sizes)])
+    N = int(off[-1])
+
+    def ev_full(*n):
+        n = tuple(int(x) for x in n)
+        log.append((-1, -1, n, state["phase"]))
+        cone = state.get("cone")
+        if cone is not None:
+            cones = cone if isinstance(cone, list) else [cone]
+            if not any(all(a <= b for a, b in zip(n, c)) for c in cones):
+                raise OutOfCone(f"H[{n}] evaluated while computing order(s) {cones}")
+        if not any(n):
+            return np.diag(np.concatenate(E))
+        if n not in term_orders:
+            return zero
+        M = np.zeros((N, N))
+        for i in range(nb):
+            for j in range(nb):
+                M[off[i]:off[i + 1], off[j]:off[j + 1]] = values(i, j, n)
+        return M
+
+    return BlockSeries(eval=ev_full, shape=(), n_infinite=n_par, name="H")
 
 
 def run_case(spec):
@@ -107,7 +131,20 @@ def run_case(spec):
     base_values = make_values(0)
     counters = Counter()
     log = []
-    state = {"phase": "define", "cone": None}
+    form = str(rng.choice(["blocks", "blocks", "scalar_indices", "scalar_vectors", "scalar_single"]))
+    state = {"phase": "define", "cone": None, "form": form}
+    counters[f"form_{form}"] += 1
+    Ntot = sum(sizes)
+    if form == "scalar_indices":
+        kwargs["subspace_indices"] = [b for b, s_ in enumerate(sizes) for _ in range(s_)]
+    elif form == "scalar_vectors":
+        eye = np.eye(Ntot)
+        offs = np.concatenate([[0], np.cumsum(sizes)])
+        kwargs["subspace_eigenvectors"] = tuple(eye[:, offs[b]:offs[b + 1]] for b in range(nb))
+    elif form == "scalar_single":
+        # no subspace argument: one block, fully diagonalised by default; the block structure is only in the values
+        kwargs.pop("fully_diagonalize", None)
+        sel = "single"
     H = _make(rng, nb, sizes, n_par, term_orders, base_values, E, hermitian, log, state)
     state["cone"] = (0,) * n_par  # defining may look at zeroth order only
     try:
@@ -119,7 +156,8 @@ def run_case(spec):
         raise Violation(f"defining the block diagonalisation evaluated H at order {bad[0][2]}")
     counters["define_time_evals"] += len(log)
     # random schedule of requests
-    universe = [(s, i, j, n) for s in range(3) for i in range(nb) for j in range(nb) for n in itertools.product(*[range(b + 1) for b in box])]
+    nb_out = 1 if form == "scalar_single" else nb
+    universe = [(s, i, j, n) for s in range(3) for i in range(nb_out) for j in range(nb_out) for n in itertools.product(*[range(b + 1) for b in box])]
     schedule = [universe[int(x)] for x in rng.choice(len(universe), size=int(rng.integers(2, 7)), replace=False)]
     nontrivial_out = nontrivial_in = False
     results = []
@@ -177,6 +215,7 @@ def run_case(spec):
     vals = []
     for vf_ in (base_values, mixed):
         st = {"phase": "meta", "cone": None}
+        st["form"] = form
         H2 = _make(rng, nb, sizes, n_par, (term_orders | {o for o in all_orders if any(a > b for a, b in zip(o, n))}) if vf_ is mixed else term_orders, vf_, E, hermitian, [], st)
         o2 = block_diagonalize(H2, **kwargs)
         vals.append(o2[s][(i, j) + n])
@@ -197,7 +236,7 @@ def run_case(spec):
 
 def finalize(c, tier, evaluations, distinct):
     reasons = []
-    need = dict(multi_element_requests=200, requests=1000, hamiltonian_evals=1000, metamorphic_pairs=300, causal_nested_requests=10000, define_time_evals=500)
+    need = dict(form_scalar_indices=50, form_scalar_vectors=50, form_scalar_single=50, form_blocks=100, multi_element_requests=200, requests=1000, hamiltonian_evals=1000, metamorphic_pairs=300, causal_nested_requests=10000, define_time_evals=500)
     for k, v in need.items():
         if c.get(k, 0) < v:
             reasons.append(f"{k} observed only {c.get(k, 0)} times (< {v})")
